@@ -290,3 +290,126 @@ def hoist_impl(ctx, fw, self_ty, within, target):
     im = ims[0]
     fw.move(im["span"][0], im["span"][1], target, pre="", suf="\n", rule="W4", what="impl " + self_ty)
     return im
+
+
+# ----------------------------------------------------------------------------- W6 R-idx
+def for_to_index_loop(ctx, fw, unit, loopnode, seq, ivar, enumerate_=False, zip_with=None, elem_ref=True):
+    """R-idx: `for P in <iteration over SEQ> { BODY }` ->
+         { let mut I: usize = 0; while I < SEQ.len() <spec> { let P = &SEQ[I]; I = I + 1; BODY } }
+    `seq` is the indexable expression (Vec or slice) the loop header iterates over; the header must be one of
+    `&SEQ`, `SEQ` (a slice), `SEQ.iter()`, `SEQ.iter().enumerate()`, `A.iter().zip(B.iter())[.enumerate()]`,
+    or `&X` with SEQ = `X.0` for the `Attributes` newtype (R-intoiter).  The index is advanced before BODY,
+    so `continue` keeps its meaning.  BODY is untouched."""
+    hdr = " ".join(fw.text(loopnode["expr_span"]).split())
+    hdr_ns = hdr.replace(" ", "")
+    s_ns = seq.replace(" ", "")
+    ok = []
+    if not enumerate_ and zip_with is None:
+        ok = ["&" + s_ns, s_ns, s_ns + ".iter()"]
+        if s_ns.endswith(".0"):
+            ok.append("&" + s_ns[:-2])   # R-intoiter: <&Attributes as IntoIterator>::into_iter is self.0.iter()
+            g = fw.weave.file("grammar.rs")
+            if b"impl<'a> IntoIterator for &'a Attributes" not in g.src or b"self.0.iter()" not in g.src:
+                raise WeaveError("R-intoiter: grammar.rs no longer defines <&Attributes>::into_iter as self.0.iter()")
+    elif enumerate_ and zip_with is None:
+        ok = [s_ns + ".iter().enumerate()"]
+    elif zip_with is not None:
+        z = zip_with.replace(" ", "")
+        ok = [s_ns + ".iter().zip(" + z + ".iter())" + (".enumerate()" if enumerate_ else "")]
+    if hdr_ns not in ok:
+        raise WeaveError("%s:%d R-idx: loop header `%s` is not an iteration over `%s`" % (fw.rel, fw.line_of(loopnode["span"][0]), hdr, seq))
+    pat = fw.text(loopnode["pat_span"])
+    bound = "%s.len()" % seq if zip_with is None else None
+    cond = "%s < %s.len()" % (ivar, seq) if zip_with is None else "%s < %s.len() && %s < %s.len()" % (ivar, seq, ivar, zip_with)
+    amp = "&" if elem_ref else ""
+    elem = "%s%s[%s]" % (amp, seq, ivar)
+    if zip_with is not None:
+        elem = "(%s, %s%s[%s])" % (elem, amp, zip_with, ivar)
+    if enumerate_:
+        elem = "(%s, %s)" % (ivar, elem)
+    fs = loopnode["span"][0]
+    bs = loopnode["body_span"][0]
+    fw.replace(fs, bs, "{ let mut %s: usize = 0;\n while %s " % (ivar, cond), "W6-R-idx", header=hdr)
+    fw.insert(bs + 1, "\n let %s = %s; %s = %s + 1;\n" % (pat, elem, ivar, ivar), rule="W6-R-idx")
+    fw.insert(loopnode["span"][1], " }", rule="W6-R-idx")
+    # generated bounds invariant and measure
+    pos = bs
+    fw.insert(pos, "\n        invariant\n            %s <= %s.len(),\n" % (ivar, seq) + ("            %s <= %s.len(),\n" % (ivar, zip_with) if zip_with else ""), rule="W6-R-idx")
+    loopnode["_ridx"] = {"ivar": ivar, "seq": seq, "zip": zip_with}
+
+
+def index_loop_spec(ctx, fw, unit, loopnode, invariants=(), tags=()):
+    """invariants of a loop rewritten by R-idx (appended to the generated bounds invariant) + generated decreases"""
+    r = loopnode["_ridx"]
+    pos = loopnode["body_span"][0]
+    for c in invariants:
+        if isinstance(c, str):
+            c = (c, tags)
+        ed = fw.insert(pos, "            %s,\n" % c[0].strip().rstrip(","), rule="W10")
+        ctx.clause(unit, "inv", c[0], set(c[1]), ed)
+    ed = fw.insert(pos, "        decreases %s.len() - %s,\n" % (r["seq"], r["ivar"]), rule="W6-R-idx")
+    ctx.clause(unit, "dec", "%s.len() - %s" % (r["seq"], r["ivar"]), {"C12"}, ed)
+
+
+# ----------------------------------------------------------------------------- W7 R-slice1
+def slice1(fw, fnnode, pat_node):
+    """R-slice1: a single-element slice pattern `[P]` matched against `e.as_slice()` / `&e[..]` becomes
+    `Some(P)` matched against `slice_single(<same expression>)` (verified 3-line helper in the prelude)."""
+    import re
+    if len(pat_node["elems"]) != 1:
+        raise WeaveError("%s:%d R-slice1: slice pattern does not have exactly one element" % (fw.rel, fw.line_of(pat_node["span"][0])))
+    # the match / if-let / let this pattern belongs to
+    cur = fw.byid.get(pat_node["parent"])
+    while cur is not None and cur["kind"] not in ("match", "expr_let", "let"):
+        cur = fw.byid.get(cur["parent"])
+    if cur is None:
+        raise WeaveError("%s: R-slice1: no scrutinee for slice pattern" % fw.rel)
+    sspan = cur["scrutinee_span"] if cur["kind"] == "match" else (cur["expr_span"] if cur["kind"] == "expr_let" else cur["init_span"])
+    key = "_slice1_done_%d" % cur["id"]
+    ps, pe = pat_node["span"]
+    es, ee = pat_node["elems"][0]
+    fw.replace(ps, es, "Some(", "W7-R-slice1")
+    fw.replace(ee, pe, ")", "W7-R-slice1")
+    if not cur.get(key):
+        cur[key] = True
+        text = fw.text(sspan)
+        m = list(re.finditer(r"(&\s*[A-Za-z_][A-Za-z_0-9\.]*\s*\[\s*\.\.\s*\]|[A-Za-z_][A-Za-z_0-9\.]*\s*\.\s*as_slice\s*\(\s*\))", text))
+        if len(m) != 1:
+            raise WeaveError("%s:%d R-slice1: scrutinee `%s` has no unique slice expression" % (fw.rel, fw.line_of(sspan[0]), text))
+        a, b = sspan[0] + m[0].start(), sspan[0] + m[0].end()
+        fw.replace(a, b, "crate::verif_prelude::slice_single(%s)" % m[0].group(0), "W7-R-slice1")
+
+
+def slice1_all(fw, fnnode):
+    for p in fw.in_fn(fnnode, ("pat_slice",)):
+        slice1(fw, fnnode, p)
+
+
+# ----------------------------------------------------------------------------- W9 R-fmt
+def fmt_value(fw, macro_node, helper):
+    """R-fmt: a `format!(LIT, args..)` whose *value* matters is redirected to a prelude helper that takes the
+    same literal and arguments and has an uninterpreted-function spec over (literal, arguments): a changed
+    literal or argument changes the specified value."""
+    import re
+    t = fw.text(macro_node["span"])
+    m = re.match(r"^format!\s*\(\s*(\"(?:[^\"\\]|\\.)*\")\s*(?:,\s*(.*))?\)\s*$", t, re.S)
+    if not m:
+        raise WeaveError("%s:%d R-fmt: not a format!(\"..\", ..) invocation" % (fw.rel, fw.line_of(macro_node["span"][0])))
+    lit, args = m.group(1), (m.group(2) or "").strip().rstrip(",")
+    inline = re.findall(r"\{([A-Za-z_][A-Za-z_0-9]*)(?::[^}]*)?\}", lit.replace("{{", ""))
+    allargs = [a for a in [args] if a] + inline
+    fw.replace(macro_node["span"][0], macro_node["span"][1], "crate::verif_prelude::%s(%s, %s)" % (helper, lit, ", ".join(allargs)), "W9-R-fmt")
+
+
+def rename_wild_for(fw, loopnode, name):
+    """`for _ in E` -> `for NAME in E` (Verus needs a named loop variable)"""
+    if fw.text(loopnode["pat_span"]).strip() != "_":
+        raise WeaveError("%s:%d loop pattern is not `_`" % (fw.rel, fw.line_of(loopnode["span"][0])))
+    fw.replace(loopnode["pat_span"][0], loopnode["pat_span"][1], name, "W7-rename-wild")
+
+
+def hoist_fn(ctx, fw, inner_qual, target):
+    """W4: a fn item nested in a function body moves to module level (scoping only)"""
+    fn = fw.fn(inner_qual)
+    fw.move(fn["span"][0], fn["span"][1], target, pre="verus!{\n", suf="\n} // verus!\n", rule="W4", what="fn " + inner_qual)
+    return fn
